@@ -206,7 +206,8 @@ StructLaws == On("pair",
          \* no piece is empty, so the empty list has no piece at all (not one empty piece)
          /\ \A j \in 1..Len(c) : c[j] # << >>
          /\ (c = << >>) <=> (la = << >>)
-         /\ Len(c) * k >= Len(la) /\ (Len(c) - 1) * k < Len(la) \/ la = << >>
+         /\ Len(c) * k >= Len(la)
+         /\ la # << >> => (Len(c) - 1) * k < Len(la)
   /\ LET g == Grouped(la) IN
        /\ Concat(g) = la
        /\ \A j \in 1..Len(g) : g[j] # << >> /\ \A x, y \in Range1(g[j]) : Equal(x, y)
